@@ -126,6 +126,17 @@ func (ex *Exec) execCommon(st *State, c *ssa.CallCommon, site ssa.Value, pos tok
 		}
 		if ex.P.isPure(name) {
 			evalArgs()
+			// a variadic library function called with a literal argument list f(x, a, b): the arguments themselves are
+			// handed to the uninterpreted function, not the slice the compiler packs them into (whose identity means
+			// nothing), so that a specification can name the same application
+			if n, ok := variadicLiteralLen(c); ok && len(args) > 0 {
+				last := args[len(args)-1]
+				flat := append([]T{}, args[:len(args)-1]...)
+				for k := 0; k < n; k++ {
+					flat = append(flat, mk(sliceElemGet(last.sort), "select", slArr(last), IntLit(int64(k))))
+				}
+				args = flat
+			}
 			rs := ex.pureCall(st, name, sig, args)
 			if name == "fmt.Errorf" || name == "errors.New" {
 				// a non-nil error of an unexported library type (type id 0 is never given to a program type)
@@ -255,7 +266,9 @@ func (ex *Exec) pureCall(st *State, name string, sig *types.Signature, args []T)
 			vc.declareASCII()
 			vc.axiom(fmt.Sprintf("(forall ((s Str)) (! (=> (gs.ascii s) (and (= (gs.len (%s s)) (gs.len s)) (gs.ascii (%s s)))) :pattern ((%s s))))", fname, fname, fname))
 			vc.axiom(fmt.Sprintf("(= (%s gs.empty) gs.empty)", fname))
-			vc.assumed["strings.ToUpper/ToLower keep the byte length of all-ASCII strings"] = true
+			// library fact: mapping an already mapped string again changes nothing
+			vc.axiom(fmt.Sprintf("(forall ((s Str)) (! (= (%s (%s s)) (%s s)) :pattern ((%s s))))", fname, fname, fname, fname))
+			vc.assumed["strings.ToUpper/ToLower keep the byte length of all-ASCII strings and are idempotent"] = true
 		}
 	}
 	vc.assumed["pure (deterministic, side-effect free): "+name] = true
@@ -790,4 +803,30 @@ func (ex *Exec) mapCard(st *State, mt types.Type, x T) T {
 		vc.axiom(fmt.Sprintf("(forall ((d %s) (k %s)) (! (=> (select d k) (> (%s d) 0)) :pattern ((select d k) (%s d))))", arrayElem(dom.sort), ks, fn, fn))
 	}
 	return Ite(Eq(x, IntLit(0)), IntLit(0), mk(SInt, fn, Select(dom, x)))
+}
+
+// variadicLiteralLen reports the number of variadic arguments when the call passes a literal argument list to a variadic
+// function (the compiler then builds `new [n]T`, stores the arguments and slices the whole array); n is limited to 4.
+func variadicLiteralLen(c *ssa.CallCommon) (int, bool) {
+	sig := c.Signature()
+	if sig == nil || !sig.Variadic() || len(c.Args) == 0 {
+		return 0, false
+	}
+	sl, ok := c.Args[len(c.Args)-1].(*ssa.Slice)
+	if !ok || sl.Low != nil || sl.High != nil || sl.Max != nil {
+		return 0, false
+	}
+	al, ok := sl.X.(*ssa.Alloc)
+	if !ok {
+		return 0, false
+	}
+	pt, ok := al.Type().Underlying().(*types.Pointer)
+	if !ok {
+		return 0, false
+	}
+	at, ok := pt.Elem().Underlying().(*types.Array)
+	if !ok || at.Len() < 1 || at.Len() > 4 {
+		return 0, false
+	}
+	return int(at.Len()), true
 }
